@@ -3,6 +3,7 @@ import re
 
 from sa import mir, tables, flow, locks
 from sa.mir import backslice, AnchorMissing
+from rules import C18
 
 TITLE = ("C13: who may call the pipe, Evict-only piping, event constants per leave path, no record leaves the index silently, the four "
          "garbage-draining siblings agree.")
@@ -182,4 +183,5 @@ def run(chk, F):
     chk.run_rule("C13.evict-only", "piping is control-dependent on event == Evict; flush pipes evict() garbage only, which is tagged Evict", 5, evict_only, F)
     chk.run_rule("C13.events", "Replace / Remove / Clear / Evict constants per leave path; drain sites forward the recorded event", 8, events, F)
     chk.run_rule("C13.no-silent-drop", "a record taken out of the index is queued with an event or returned to the caller", 5, no_silent_drop, F)
+    chk.run_rule("C13.last-handle", "the last-drop hand-off of a disk-only entry is decided by the value the atomic decrement returned (exactly one dropper sees zero)", 2, C18.drop_last_handle, F)
     chk.run_rule("C13.siblings", "the garbage-draining sites agree and run outside the shard lock", 6, siblings, F)
